@@ -373,6 +373,9 @@ func unreachedSites(x *Exec, h *ssa.Function) []string {
 						msg = strings.Trim(c.Value.ExactString(), "\"")
 					}
 					site := x.pos(in) + ": " + msg
+					if x.cfg.Tier == 0 && strings.HasPrefix(msg, "[thorough]") {
+						continue
+					}
 					if x.AssertSites[site] == 0 {
 						res = append(res, "Assert "+site)
 					}
